@@ -159,7 +159,7 @@ Lemma in_indexed {A} (l : list A) x : In x (indexed l) -> In (snd x) l.
 Proof. intros Hx. rewrite <- (map_snd_indexed l). apply in_map. exact Hx. Qed.
 
 (* ---- no crossing cells outside the crossing line ---- *)
-Definition plain (c : cell) : bool := match c with Main | HCross => false | _ => true end.
+Definition plain (c : cell) : bool := match c with Main | HCross | VCross => false | _ => true end.
 
 Lemma header_plain k : forallb plain (header_row t k) = true.
 Proof. unfold header_row, h_ins, h_outs, h_anns, sep_ann. rewrite forallb_app. cbn [forallb plain]. rewrite forallb_app.
@@ -178,6 +178,7 @@ Proof. intros Hf Hp. apply find_cell_none. rewrite forallb_forall in *. intros c
 
 Lemma plain_main c : plain c = true -> is_main c = false. Proof. destruct c; cbn; congruence. Qed.
 Lemma plain_hcross c : plain c = true -> is_hcross c = false. Proof. destruct c; cbn; congruence. Qed.
+Lemma plain_vcross c : plain c = true -> is_vcross c = false. Proof. destruct c; cbn; congruence. Qed.
 
 Lemma headers_length : length (map (header_row t) (seq 0 HH)) = HH.
 Proof. rewrite map_length, seq_length. reflexivity. Qed.
@@ -329,6 +330,158 @@ Proof. unfold recognize_horizontal. rewrite main_position, ivp_eq. cbv zeta. rew
   destruct (fields_of t); reflexivity. Qed.
 End Roundtrip.
 
+(* ================================================================== pivot is an involution on rectangular planes *)
+Lemma transpose_cons w : forall r p, length r = w -> transpose w (r :: p) = zipcons r (transpose w p).
+Proof. induction w as [|w IH]; intros r p Hr; destruct r as [|x r]; cbn [length] in Hr; try discriminate; [reflexivity|].
+  cbn [transpose heads tails map tl zipcons]. f_equal. apply IH. lia. Qed.
+
+Lemma transpose_length w p : length (transpose w p) = w.
+Proof. revert p. induction w as [|w IH]; intros p; cbn [transpose length]; [reflexivity|]. rewrite IH. reflexivity. Qed.
+
+Lemma heads_zipcons r : forall m, length r = length m -> heads (zipcons r m) = r.
+Proof. induction r as [|x r IH]; intros [|row m] Hl; cbn [length] in Hl; try discriminate; [reflexivity|].
+  cbn [zipcons heads]. rewrite IH by lia. reflexivity. Qed.
+
+Lemma tails_zipcons r : forall m, length r = length m -> tails (zipcons r m) = m.
+Proof. induction r as [|x r IH]; intros [|row m] Hl; cbn [length] in Hl; try discriminate; [reflexivity|].
+  cbn [zipcons tails map tl]. fold (tails (zipcons r m)). rewrite IH by lia. reflexivity. Qed.
+
+Lemma transpose_involutive w p : (forall r, In r p -> length r = w) -> transpose (length p) (transpose w p) = p.
+Proof. induction p as [|r p IH]; intros Hall; [reflexivity|].
+  rewrite (transpose_cons w r p (Hall r (or_introl eq_refl))). cbn [length transpose].
+  assert (L : length r = length (transpose w p)) by (rewrite transpose_length; apply Hall; left; reflexivity).
+  rewrite (heads_zipcons r _ L), (tails_zipcons r _ L), IH; [reflexivity|]. intros r' Hr'. apply Hall. right. exact Hr'. Qed.
+
+Lemma heads_map f p : heads (map (map f) p) = map f (heads p).
+Proof. induction p as [|[|c r] p IH]; cbn [map heads]; [reflexivity|exact IH|]. rewrite IH. reflexivity. Qed.
+
+Lemma tails_map f p : tails (map (map f) p) = map (map f) (tails p).
+Proof. unfold tails. rewrite !map_map. apply map_ext. intros [|c r]; reflexivity. Qed.
+
+Lemma transpose_map f w : forall p, transpose w (map (map f) p) = map (map f) (transpose w p).
+Proof. induction w as [|w IH]; intros p; cbn [transpose map]; [reflexivity|]. rewrite heads_map, tails_map, IH. reflexivity. Qed.
+
+Lemma heads_full p : (forall r, In r p -> r <> []) -> length (heads p) = length p.
+Proof. induction p as [|[|c r] p IH]; intros H; cbn [heads length]; [reflexivity| |].
+  - exfalso. apply (H [] (or_introl eq_refl)). reflexivity.
+  - rewrite IH; [reflexivity|]. intros r' Hr'. apply H. right. exact Hr'. Qed.
+
+Theorem pivot_involutive p : rectangular p = true -> pivot (pivot p) = p.
+Proof. unfold rectangular. intros Hr. apply andb_true_iff in Hr. destruct Hr as [Hw Hall]. apply Nat.ltb_lt in Hw.
+  rewrite forallb_forall in Hall.
+  assert (Hlen : forall r, In r p -> length r = width p) by (intros r Hr; apply Nat.eqb_eq; apply Hall; exact Hr).
+  unfold pivot at 2.
+  assert (Wd : width (map (map pivot_cell) (transpose (width p) p)) = length p).
+  { destruct (width p) as [|w] eqn:E; [lia|]. cbn [transpose map width]. rewrite map_length. apply heads_full.
+    intros r Hr He. specialize (Hlen r Hr). rewrite He in Hlen. cbn in Hlen. lia. }
+  unfold pivot. rewrite Wd, transpose_map, (transpose_involutive (width p) p Hlen).
+  rewrite map_map. rewrite <- (map_id p) at 2. apply map_ext. intros r. rewrite map_map. rewrite <- (map_id r) at 2.
+  apply map_ext. apply pivot_cell_involutive. Qed.
+
+(* ================================================================== the whole plane: orientation, marker, rule numbers *)
+Lemma after_repeat f c n x r : f c = false -> f x = true -> after f (repeat c n ++ x :: r) = r.
+Proof. intros Hc Hx. induction n as [|n IH]; cbn [repeat app after]; [rewrite Hx; reflexivity|]. rewrite Hc. exact IH. Qed.
+
+Lemma in_zipcons a : forall m r, In r (zipcons a m) -> exists c row, r = c :: row /\ In c a /\ In row m.
+Proof. induction a as [|x a IH]; intros [|row m] r; cbn [zipcons In]; try tauto.
+  intros [<-|Hr]; [exists x, row; cbn [In]; tauto|]. destruct (IH m r Hr) as [c [row' [E [Hc Hm]]]]. exists c, row'. cbn [In]. tauto. Qed.
+
+Lemma rectangular_layout t : wf t = true -> rectangular (layout_h t) = true.
+Proof. intros Hwf. unfold rectangular. rewrite (width_layout t). apply andb_true_iff. split.
+  - apply Nat.ltb_lt. unfold W. lia.
+  - apply forallb_forall. intros r Hr. apply Nat.eqb_eq. unfold layout_h in Hr. apply in_app_or in Hr.
+    assert (Hs : forall a b c s1 s2, shaped t r a b c s1 s2 -> length r = W t).
+    { intros a b c s1 s2 [-> [A [B C]]]. rewrite app_length. cbn [length]. rewrite app_length. unfold W, sep_ann.
+      destruct (t_annotations t); cbn [length] in *; lia. }
+    destruct Hr as [Hr|[<-|Hr]].
+    + apply in_map_iff in Hr. destruct Hr as [k [<- _]]. apply (Hs _ _ _ _ _ (header_shaped t k)).
+    + unfold cross_row, W, sep_ann. rewrite app_length. cbn [length]. rewrite app_length, !map_length.
+      destruct (t_annotations t); cbn [length]; rewrite ?map_length; cbn [length]; lia.
+    + apply in_map_iff in Hr. destruct Hr as [ir [<- Hir]]. apply (Hs _ _ _ _ _ (rule_shaped t Hwf ir (in_indexed _ _ Hir))). Qed.
+
+Section Whole.
+Variable parse_hp : N -> option N.
+Variable parse_num : N -> option nat.
+Variables (hp_text hp : N) (num_text : nat -> N).
+Hypothesis Hhp : parse_hp hp_text = Some hp.
+Hypothesis Hnum : forall k, parse_num (num_text k) = Some k.
+Variable t : table.
+Hypothesis Hwf : wf t = true.
+Hypothesis Hrules : t_rules t <> [].
+
+Local Notation first_col := (repeat (marker hp_text) (hdr t) ++ HOut :: numbers_cells num_text t).
+Local Notation P := (layout_rows hp_text num_text t).
+
+Lemma first_col_length : length first_col = length (layout_h t).
+Proof. rewrite app_length, repeat_length. cbn [length]. unfold numbers_cells. rewrite map_length, seq_length, (length_layout t). lia. Qed.
+
+Lemma heads_P : heads P = first_col.
+Proof. apply heads_zipcons. apply first_col_length. Qed.
+Lemma tails_P : tails P = layout_h t.
+Proof. apply tails_zipcons. apply first_col_length. Qed.
+
+Lemma numbers_seq n : forall s,
+  numbers parse_num (S s) (map (fun i => Region (10%N, N.of_nat i) (num_text (S i))) (seq s n)) = Some (Some (s + n)).
+Proof. induction n as [|n IH]; intros s; cbn [seq map numbers]; [f_equal; f_equal; lia|].
+  rewrite Hnum, Nat.eqb_refl, IH. f_equal. f_equal. lia. Qed.
+
+Lemma rn_P : rn_placement parse_num P = Some (LeftBelow (length (t_rules t))).
+Proof. unfold rn_placement. rewrite heads_P, after_repeat by reflexivity. unfold numbers_cells. rewrite (numbers_seq _ 0). cbn [Nat.add].
+  destruct (t_rules t) as [|r rs]; [congruence|]. reflexivity. Qed.
+
+Lemma hp_P : hp_placement parse_hp P = Some (TopLeft hp).
+Proof. unfold layout_rows, layout_h. pose proof (H_pos t) as HP. destruct (hdr t) as [|h]; [lia|].
+  cbn [seq map app repeat zipcons hp_placement cell_hp marker]. rewrite Hhp. reflexivity. Qed.
+
+Lemma no_vcross_P : present is_vcross P = false.
+Proof. unfold present. rewrite find_plane_none; [reflexivity|]. intros r Hr.
+  destruct (in_zipcons _ _ _ Hr) as [c [row [-> [Hc Hrow]]]]. cbn [find_cell].
+  assert (Hcv : is_vcross c = false).
+  { apply in_app_or in Hc. destruct Hc as [Hc|[<-|Hc]]; [apply repeat_spec in Hc; subst; reflexivity|reflexivity|].
+    unfold numbers_cells in Hc. apply in_map_iff in Hc. destruct Hc as [i [<- _]]. reflexivity. }
+  rewrite Hcv. replace (find_cell is_vcross row) with (@None nat); [reflexivity|]. symmetry.
+  unfold layout_h in Hrow. apply in_app_or in Hrow. destruct Hrow as [Hh|[<-|Hh]].
+  - apply in_map_iff in Hh. destruct Hh as [k [<- _]]. apply (plain_no is_vcross _ plain_vcross (header_plain t k)).
+  - apply find_cell_none. unfold cross_row, sep_ann. rewrite forallb_app. cbn [forallb is_vcross negb]. rewrite forallb_app.
+    rewrite !forallb_map_true by reflexivity. destruct (t_annotations t); [reflexivity|]. cbn [forallb is_vcross negb]. rewrite forallb_map_true; reflexivity.
+  - apply in_map_iff in Hh. destruct Hh as [ir [<- _]]. apply (plain_no is_vcross _ plain_vcross (rule_plain t ir)). Qed.
+
+Theorem orientation_rows : orientation parse_hp parse_num P = Some (AsRow, hp, length (t_rules t)).
+Proof. unfold orientation. rewrite hp_P, rn_P, no_vcross_P. destruct (present is_hcross P); reflexivity. Qed.
+
+Theorem roundtrip_rows : recognize_plane parse_hp parse_num P = Some (AsRow, hp, length (t_rules t), fields_of t).
+Proof. unfold recognize_plane. rewrite orientation_rows, tails_P, (roundtrip_h t Hwf). reflexivity. Qed.
+
+(* rules as columns: taking the marker line off and pivoting gives back the plane of the table *)
+Theorem columns_normalise : pivot (removelast (layout_columns hp_text num_text t)) = layout_h t.
+Proof. unfold layout_columns. rewrite removelast_last. apply pivot_involutive. apply rectangular_layout. exact Hwf. Qed.
+
+(* every shape the recogniser reads from a drawn table passes builder.rs validate_size *)
+Theorem size_validation_complete :
+  validate_size (length (t_inputs t)) (length (t_outputs t)) (length (t_annotations t)) (length (t_rules t)) (fields_of t) = true.
+Proof. destruct (wf_parts19 t Hwf) as [Hi [Ho Hl]]. unfold validate_size, fields_of.
+  cbn [f_inputs f_input_values f_components f_output_values f_input_entries f_output_entries f_annotation_entries].
+  rewrite !map_length. apply Nat.ltb_lt in Hi, Ho. rewrite Hi, Ho, !Nat.eqb_refl. cbn [andb].
+  assert (R : Nat.ltb 0 (length (t_rules t)) = true) by (apply Nat.ltb_lt; destruct (t_rules t); [congruence|cbn; lia]).
+  rewrite R.
+  assert (F : forall (sel : rule -> list N) n, (forall r, In r (t_rules t) -> length (sel r) = n) ->
+              forallb (fun r => Nat.eqb (length r) n) (map sel (t_rules t)) = true).
+  { intros sel n Hs. apply forallb_forall. intros x Hx. apply in_map_iff in Hx. destruct Hx as [r [<- Hr]]. apply Nat.eqb_eq. apply Hs. exact Hr. }
+  rewrite (F r_in _ (fun r Hr => proj1 (Hl r Hr))), (F r_out _ (fun r Hr => proj1 (proj2 (Hl r Hr)))).
+  replace ((if t_values t then map snd (t_inputs t) else [])) with (if t_values t then map snd (t_inputs t) else @nil N) by reflexivity.
+  assert (V1 : (Nat.eqb (length (if t_values t then map snd (t_inputs t) else [])) 0 || Nat.eqb (length (if t_values t then map snd (t_inputs t) else [])) (length (t_inputs t))) = true)
+    by (destruct (t_values t); [rewrite map_length, Nat.eqb_refl; apply orb_true_r|reflexivity]).
+  assert (V2 : (Nat.eqb (length (if t_values t then map snd (t_outputs t) else [])) 0 || Nat.eqb (length (if t_values t then map snd (t_outputs t) else [])) (length (t_outputs t))) = true)
+    by (destruct (t_values t); [rewrite map_length, Nat.eqb_refl; apply orb_true_r|reflexivity]).
+  rewrite V1, V2. cbn [andb].
+  assert (C : (if Nat.ltb 1 (length (t_outputs t)) then Nat.eqb (length (if multi t then map fst (t_outputs t) else [])) (length (t_outputs t))
+               else Nat.eqb (length (if multi t then map fst (t_outputs t) else [])) 0) = true).
+  { unfold multi. destruct (Nat.ltb 1 (length (t_outputs t))); [rewrite map_length; apply Nat.eqb_refl|reflexivity]. }
+  rewrite C. cbn [andb].
+  destruct (t_annotations t) as [|a l] eqn:Ea; [reflexivity|]. cbn [length Nat.eqb orb]. rewrite map_length, Nat.eqb_refl. cbn [andb].
+  apply (F r_ann). intros r Hr. rewrite (proj2 (proj2 (Hl r Hr))). reflexivity. Qed.
+End Whole.
+
 (* ---------------- the bounded sweep ---------------- *)
 Definition texts_from (base : N) (n : nat) : list N := map (fun k => (base + N.of_nat k)%N) (seq 0 n).
 
@@ -363,6 +516,21 @@ Definition cell_eqb (a b : cell) : bool :=
   | _, _ => false
   end.
 
+(* concrete text conventions for the sweep: 77 is the marker text, 90000 + k the text of rule number k *)
+Definition sw_parse_hp (x : N) : option N := if N.eqb x 77 then Some 1%N else None.
+Definition sw_parse_num (x : N) : option nat := if N.leb 90000 x then Some (N.to_nat (x - 90000)) else None.
+Definition sw_num_text (k : nat) : N := (90000 + N.of_nat k)%N.
+
+Definition whole_ok (t : table) : bool :=
+  match recognize_plane sw_parse_hp sw_parse_num (layout_columns 77%N sw_num_text t) with
+  | Some (AsColumn, 1%N, n, f) => Nat.eqb n (length (t_rules t)) && fields_eqb f (fields_of t)
+  | _ => false
+  end &&
+  match recognize_plane sw_parse_hp sw_parse_num (layout_rows 77%N sw_num_text t) with
+  | Some (AsRow, 1%N, n, f) => Nat.eqb n (length (t_rules t)) && fields_eqb f (fields_of t)
+  | _ => false
+  end.
+
 Definition roundtrip_ok (t : table) : bool :=
   wf t && rectangular (layout_h t) &&
   match recognize_horizontal (layout_h t) with Some f => fields_eqb f (fields_of t) | None => false end &&
@@ -393,6 +561,29 @@ Proof. destruct a as [[i1 i2] x| | | | | | |], b as [[j1 j2] y| | | | | | |]; cb
 
 Lemma sweep : forallb roundtrip_ok shapes = true.
 Proof. vm_compute. reflexivity. Qed.
+
+Lemma sweep_whole : forallb whole_ok shapes = true.
+Proof. vm_compute. reflexivity. Qed.
+
+Theorem columns_roundtrip_bounded : forall n_in n_out n_ann n_rules lbl vals,
+  1 <= n_in <= 5 -> 1 <= n_out <= 3 -> n_ann <= 2 -> 1 <= n_rules <= 8 ->
+  let t := shape_table n_in n_out n_ann n_rules lbl vals in
+  recognize_plane sw_parse_hp sw_parse_num (layout_columns 77%N sw_num_text t) = Some (AsColumn, 1%N, n_rules, fields_of t).
+Proof. intros n_in n_out n_ann n_rules lbl vals Hi Ho Ha Hr t.
+  assert (Hin : In t shapes).
+  { unfold shapes. apply in_flat_map. exists n_in. split; [apply in_seq; lia|].
+    apply in_flat_map. exists n_out. split; [apply in_seq; lia|].
+    apply in_flat_map. exists n_ann. split; [apply in_seq; lia|].
+    apply in_flat_map. exists n_rules. split; [apply in_seq; lia|].
+    apply in_flat_map. exists lbl. split; [destruct lbl; cbn; tauto|].
+    apply in_map_iff. exists vals. split; [reflexivity|destruct vals; cbn; tauto]. }
+  pose proof sweep_whole as S. rewrite forallb_forall in S. specialize (S t Hin). unfold whole_ok in S.
+  apply andb_true_iff in S. destruct S as [S _].
+  destruct (recognize_plane sw_parse_hp sw_parse_num (layout_columns 77%N sw_num_text t)) as [[[[o h] n] f]|]; [|discriminate].
+  destruct o; [discriminate|]. destruct h as [|[| |]]; try discriminate.
+  apply andb_true_iff in S. destruct S as [S1 S2]. apply Nat.eqb_eq in S1. apply fields_eqb_eq in S2. subst f.
+  assert (length (t_rules t) = n_rules) by (unfold t, shape_table; cbn [t_rules]; rewrite map_length, seq_length; reflexivity).
+  congruence. Qed.
 
 Theorem plane_roundtrip_bounded : forall n_in n_out n_ann n_rules lbl vals,
   1 <= n_in <= 5 -> 1 <= n_out <= 3 -> n_ann <= 2 -> 1 <= n_rules <= 8 ->
